@@ -1,4 +1,5 @@
 import SSModel.Snapshot
+import SSModel.Gen.Consts
 /-!
 C07 — thread stacks: exact when the thread is blocked, memory-safe when it is racing (partial).
 Property theorems only; model `SSModel/Snapshot.lean` (retry count = generated `SS.Gen.snapshotRetries`).
@@ -144,6 +145,24 @@ theorem C07_ident (l : Life) (t0 t1 t2 : Nat) (h01 : t0 ≤ t1) (h12 : t1 ≤ t2
     (ha : l.aliveAt t0 = true) (hb : l.aliveAt t2 = true) : l.aliveAt t1 = true := by
   simp only [Life.aliveAt, Bool.and_eq_true, decide_eq_true_eq] at *
   omega
+
+/-- The calling-thread test of `unwrap_thread`, re-read from the source on every run. -/
+theorem C07_shortcut_source : SS.Gen.unwrapThreadShortcut = "thread.ident == threading.get_ident() and thread.is_alive()" := by decide
+
+/-- **C07_finished_full**: a thread that is not alive -- before, at and after the lookup -- yields no frames, whoever asks: also a
+caller that has been given the finished thread's ident since, and whatever frame is found under that ident. -/
+theorem C07_finished_full (identIsCallers : Bool) (f : Option Nat) :
+    unwrapThreadFull identIsCallers false false f false = .nothing := by
+  cases identIsCallers <;> cases f <;> simp [unwrapThreadFull, unwrapThread]
+
+/-- The calling thread itself (alive, its own ident) gets the slice that ends at the caller. -/
+theorem C07_calling_thread (was : Bool) (f : Option Nat) (after : Bool) :
+    unwrapThreadFull true true was f after = .callerSlice := by
+  simp [unwrapThreadFull]
+
+/-- With the ident alone deciding (the code between the repairs of F39 and F60) a finished thread whose ident the caller now holds
+is answered with the caller's own stack. -/
+theorem C07_F60_old_code_witness : unwrapThreadIdentOnly true false (some 7) false = .callerSlice := by decide
 
 /-! non-vacuity -/
 example : inspectFrame [[⟨4, [1]⟩, ⟨6, [1]⟩], [⟨6, [5, 6]⟩, ⟨6, [5, 6]⟩, ⟨6, [5, 6]⟩, ⟨6, [5, 6]⟩, ⟨6, [5, 6]⟩, ⟨6, [5, 6]⟩, ⟨6, [5, 6]⟩]] 2
